@@ -267,12 +267,18 @@ class _DstZone(dt.tzinfo):
         return d is not None and 4 <= d.month < 10
 
     def utcoffset(self, d):
+        if d is None:
+            return None  # as zoneinfo: without a date there is no offset
         return dt.timedelta(minutes=self._std + (60 if self._summer(d) else 0))
 
     def tzname(self, d):
+        if d is None:
+            return None
         return "XDT" if self._summer(d) else "XST"
 
     def dst(self, d):
+        if d is None:
+            return None
         return dt.timedelta(minutes=60 if self._summer(d) else 0)
 
 
